@@ -87,6 +87,19 @@ func (r *cache) trySaveSnapshot(shardID uint64,
 	return index > v
 }
 
+// removeNodeData drops the cached hard state, snapshot index and last entry
+// batch of the specified node. It is called when the data of the node is
+// removed so that records saved afterwards are not skipped or merged based on
+// what was cached for the removed data.
+func (r *cache) removeNodeData(shardID uint64, replicaID uint64) {
+	r.mu.Lock()
+	defer r.mu.Unlock()
+	key := raftio.NodeInfo{ShardID: shardID, ReplicaID: replicaID}
+	delete(r.ps, key)
+	delete(r.snapshotIndex, key)
+	delete(r.lastEntryBatch, key)
+}
+
 func (r *cache) setMaxIndex(shardID uint64, replicaID uint64, maxIndex uint64) {
 	r.mu.Lock()
 	defer r.mu.Unlock()
